@@ -5,10 +5,10 @@ from .common import *
 
 LEVEL_TEXT = ("Coq theorems (C18/Props.v): the sliding and prefix accumulations of moving_average are the sums of the last min(span,i+1) / first i+1 entries (numerators and denominators alike), hence the textbook weighted average for every span incl. the span=1 shortcut and every explicit weight sequence, and the closed form of the 'exp' weighting; "
               "where_fin(l,p) keeps exactly the pairing groups with one evaluation per level; its result is closed (complete w.r.t. its own levels); where_fin(n=k,l,p) leaves equal-length, complete groups; "
-              "'min' truncates to the minimum. Tied to the code by correspondence of the extracted model on generated Results, plus a naive recomputation oracle from the rows "
+              "'min' truncates to the minimum; Result._remove's bisect loop selects exactly the surviving rows for every sorted id table, every list of evaluations to drop and every n. Tied to the code by correspondence of the extracted model on generated Results, plus a naive recomputation oracle from the rows "
               "(consistency of the four tables, values unchanged, raw_learners averages, where/where_fin/where_best chains).")
 TRUSTED = ["Coq 8.16.1 kernel (coqc)", "extraction + ocaml/driver.ml", "harness/c18.py (Result generator, key extraction from the parameter tables, naive oracle)",
-           "modelled not verified: Table/View machinery (C17), _remove's bisect walk, _grouped_ys joins (their effect is compared end-to-end), binary64 rounding (tolerance 1e-9), plotting"]
+           "modelled not verified: Table/View machinery (C17), _grouped_ys joins (their effect is compared end-to-end), CPython bisect/sorted (by specification) and the sortedness of the id columns under _remove's theorem (checked on every generated Result), binary64 rounding (tolerance 1e-9), plotting"]
 ASSUMPTIONS = ["span >= 1 ('every span' is read as every positive span; span=0 divides by zero by construction)", "parameter values are hashable",
                "for where_fin(n=k,l,p) the oracle demands necessary conditions (complete groups, exact length k, unchanged values, consistent tables); exact membership is compared with the model only"]
 RULE = ("Results with 1-4 environments x 1-4 learners x 1-2 evaluators, missing triples, ragged lengths 1-8, duplicate parameter values; l/p as ids, parameter columns or lists; n in {None,'min',k}; "
@@ -244,10 +244,47 @@ def corpus(ctx):
     f = mk({(1, 1, 1): 2, (1, 2, 1): 5, (2, 1, 1): 5, (2, 2, 1): 5}).where_fin(4, "learner_id", "environment_id")
     if set(trips_of(f)) != {(2, 1, 1), (2, 2, 1)}: ctx.fail(["where_fin", "incomplete-group"], "n=4: kept %s" % sorted(trips_of(f)), c)
 
+def remove_spec(rows, ids, n):
+    """what Result._remove is for: the row numbers of evaluations that are not listed, plus the first n rows of listed evaluations longer than n"""
+    ids = set(ids); size = defaultdict(int); first = {}
+    for i, t in enumerate(rows):
+        size[t] += 1; first.setdefault(t, i)
+    return [i for i, t in enumerate(rows) if t not in ids or (size[t] > n and i - first[t] < n)]
+
+def check_remove(ctx, n_cases):
+    """Result._remove (nested bisections over the three id columns) against its specification and against the extracted model of the loop (C18.ModelRemove)"""
+    rng = ctx.rng
+    reqs, metas = [], []
+    for _ in range(n_cases):
+        r, meta = gen_result(rng)
+        if not meta["trip"]: continue
+        cols = r.interactions[["environment_id", "learner_id", "evaluator_id"]]
+        rows = [tuple(t) for t in zip(*cols)]
+        if rows != sorted(rows):
+            ctx.fail(["_remove", "interactions-not-sorted"], "the interactions table of a Result is not sorted by its three id columns, which _remove relies on", dict(rows=rows[:20])); continue
+        keys = sorted(meta["trip"])
+        ids = rng.sample(keys, rng.randrange(0, len(keys) + 1))
+        if rng.random() < 0.4: ids += [(rng.randrange(0, 5), rng.randrange(0, 5), rng.randrange(0, 3)) for _ in range(rng.randrange(1, 3))]      # evaluations that do not occur
+        if ids and rng.random() < 0.3: ids += rng.sample(ids, 1)       # listed twice
+        rng.shuffle(ids)
+        n = rng.choice([0, 0, 1, 2, 3, 5])
+        case = dict(rows=[list(t) for t in rows], ids=[list(t) for t in ids], n=n)
+        ctx.count("_remove", repr(case), len(set(rows)) >= 2 and bool(ids))
+        try: got = list(r._remove(list(ids), n))
+        except Exception as e:
+            ctx.fail(["_remove", "raises", errname(e)], "_remove raised %s: %s" % (errname(e), str(e)[:100]), case); continue
+        exp = remove_spec(rows, ids, n)
+        if got != exp:
+            ctx.fail(["_remove", "wrong-rows"], "_remove(%s, %s) selected rows %s, the rows that survive are %s" % (ids, n, got[:30], exp[:30]), case); continue
+        reqs.append((18, [3, [list(t) for t in rows], [list(t) for t in ids], n])); metas.append((case, got))
+    for (case, got), mo in zip(metas, ctx.get_model().batch(reqs)):
+        if list(mo) != got: ctx.disagree("C18.remove", case, got, mo)
+
 def run(ctx):
     from coba.context import CobaContext, NullLogger
     CobaContext.logger = NullLogger()
     corpus(ctx)
+    check_remove(ctx, ctx.n(300, 4000))
     check_ma(ctx, ctx.n(400, 5000))
     check_fin(ctx, ctx.n(500, 6000))
     check_raw(ctx, ctx.n(200, 2500))
